@@ -20,23 +20,35 @@ CONFIG = {'assumptions': [
     'codes per table, a present DW_AT_sibling designates the true next sibling in a reference form, index forms '
     'resolvable (base attribute in the root entry, index inside the table), references designate an entry',
     'the DIE/CU caches are modelled by recomputation (their transparency is C10)']}
-LEVEL = {'text': 'Machine-checked theorems (Props/C04.v, all closed): the live Dwarf_dw_form table equals the form table of '
-                 'the standard in all 32 configurations, form/unit-type/abbreviation structs and name dicts as the standard; '
-                 'unit header round trips (v2-v4 CU, six v5 kinds, v4 type unit; any offset, any tail) and abbreviation table '
-                 'round trip + lookup (any valid LEB128 encodings, arbitrary codes, unknown numbers, implicit_const); every '
-                 'operand class and DW_FORM_indirect chains of any length; one entry at any offset = expected offset, size, '
-                 'code, tag, child flag, attributes (name, final form, raw value, offset, indirection length); for every '
-                 'well-formed unit placed anywhere, parsing at each successive offset yields exactly the pre-order entry list '
-                 '(dies_flat_exact); entries tile the unit from cu_die_offset to unit_length + initial-length size; several '
-                 'units of mixed parameters are found at the running sums (iter_CUs / iter_TUs).  See LEVEL note for what is '
-                 '_partial.  The model is tied to the code by the regenerated Gen tables and by a differential correspondence '
-                 'on random unit sequences.',
+LEVEL = {'text': 'Machine-checked theorems (Props/C04.v, 37, all closed under the global context), universally quantified over '
+                 'well-formed units (Spec unit_wf: v2-5, DWARF32/64, address size 4/8, both byte orders, all header kinds, '
+                 'arbitrary abbreviation codes / unknown numbers, every LEB128 in any valid encoding) placed at any offset with '
+                 'any following bytes: (1) the live Dwarf_dw_form table = the form table of the standard in all 32 '
+                 'configurations, header / abbreviation structs and name dicts as the standard; (2) unit header round trips '
+                 '(v2-v4 CU, six v5 kinds, v4 type unit) and abbreviation table round trip + lookup; (3) every operand class, '
+                 'DW_FORM_indirect chains of any length, implicit_const; one entry at any offset = expected offset, size, code, '
+                 'tag, child flag, attributes (name, final form, raw value, offset, indirection length); parsing at each '
+                 'successive offset yields exactly the pre-order entry list; resolved values (strp, line_strp, flag, strx*, '
+                 'addrx*, loclistx, rnglistx through the top entry\'s base attributes) equal the standard\'s whenever defined; '
+                 '(4) entries tile the unit from cu_die_offset to unit_length + initial-length size; (5) iter_DIEs = the '
+                 'pre-order list, iter_children of every node = the encoded children and the closing null entry, get_parent '
+                 'of every child / terminator = the encoded parent (DW_AT_sibling absent or, in any reference form, '
+                 'designating the true next sibling); (6) unit-relative, ref_addr and ref_sig8 (v5 type units in .debug_info '
+                 'and v4 .debug_types) references return the entry at the designated offset; (7) units of mixed parameters '
+                 'are found at the running sums by iter_CUs / iter_TUs and each is parsed with its own parameters.  Nothing is '
+                 'left _partial.  The model is tied to the code by the regenerated Gen tables and by a differential '
+                 'correspondence on random unit sequences (impl = model = spec on every in-domain case).',
          'design_ref': '4.4',
-         'technique': 'Coq proof (list induction over the flattened tree, LEB128/fixed-int round trips from C16, vm_compute '
-                      'for the finite table theorems) + Gen tables from live construct objects + extracted-model correspondence',
-         'note': 'Not proved in Coq, pinned by the correspondence only (impl = model = spec on every generated in-domain case): the tree walk (iter_children / iter_DIEs with DW_AT_sibling shortcuts, get_parent), reference resolution (get_DIE_from_attribute) and resolved attribute values (strp/strx/addrx/loclistx/rnglistx).  '
-                 'Trusted: Coq kernel, extraction, harness, tools/gen/gen_c04.py (construct-tree walk), the form table in '
-                 'Spec/C04Spec.v written from DWARF 2-5.  No axioms.'}
+         'technique': 'Coq proof (induction over the encoded tree and its flattening, LEB128/fixed-int/cstring round trips from '
+                      'C16, vm_compute for the finite table theorems) + Gen tables from live construct objects + '
+                      'extracted-model correspondence',
+         'note': 'Hypotheses are the boolean checks the driver evaluates per case (unit_wf, table_at_b, siblings_wf, resolve '
+                 '= Some, ref_target = Some).  Outside the theorems (pinned by correspondence only): the DIE/CU caches '
+                 '(modelled by recomputation; their transparency is C10), strings without terminator (library: None) and '
+                 'unresolvable indexes.  Defects found and fixed in /repo: DW_FORM_strx missing (54a8ce3), DW_FORM_strx4 read '
+                 'as 8 bytes (7cdf1ca), ref_sig8 to v5 type units (f90eac4).  Trusted: Coq kernel, extraction, harness, '
+                 'tools/gen/gen_c04.py (construct-tree walk), the form table in Spec/C04Spec.v written from DWARF 2-5.  '
+                 'No axioms.'}
 RULE = ('cases: (a) one_form: one unit, one entry, one attribute of each standard form followed by a sentinel attribute, in '
         'all 32 configurations; (b) world: random unit sequences in .debug_info and .debug_types (versions 2-5, 32/64-bit, '
         'addr 4/8, LSB/MSB, every header kind, shared/per-unit abbreviation tables at arbitrary offsets, arbitrary codes, '
@@ -159,8 +171,15 @@ class Gen:
         if k == 121:
             return ['implicit']
         if k == 122:
-            pool = [f for f in STD_FORMS if f != 0x21 and (f != 0x16 or depth < 3)]
-            f = env.get('indirect_to') or rng.choice(pool)
+            pool = [f for f in STD_FORMS if f != 0x21 and f != 0x16]
+            if env.get('indirect_to'):
+                f = env['indirect_to']
+                if depth < 2 and rng.random() < 0.25:          # reach the wanted form through a longer chain
+                    return ['ind', [0x16, uleb(0x16, rng.choice([0, 0, 1]))], self.operand(cfg, 0x16, env, depth + 1)]
+            elif depth < 3 and rng.random() < 0.35:            # indirection cascades of length 2..4
+                f = 0x16
+            else:
+                f = rng.choice(pool)
             env2 = dict(env)
             env2.pop('indirect_to', None)
             return ['ind', [f, uleb(f, rng.choice([0, 0, 1]))], self.operand(cfg, f, env2, depth + 1)]
@@ -872,6 +891,11 @@ def evaluate(ctx, cases):
         ctx.bump('units', len(w[1]) + len(w[2]))
         ctx.bump('entries', nent if nent < 10 else ('10-49' if nent < 50 else '50+'))
         ctx.bump('wf', ''.join(str(int(x)) for x in wf))
+        try:
+            chain = max([a[5] for part in spec for u in part if isinstance(u[1], list) for r in u[1] for a in r[0][5]] or [0])
+        except Exception:
+            chain = '?'
+        ctx.bump('max_indirection_length', chain)
         if kind == 'one_form':
             ctx.bump('form', hint)
         detail = None
